@@ -8,6 +8,7 @@ import Driver.CalCfg
 import Driver.KeepAlive
 import Driver.Countdown
 import Driver.Debounce
+import Driver.CfgStore
 
 def main (args : List String) : IO UInt32 := do
   match args with
@@ -21,4 +22,5 @@ def main (args : List String) : IO UInt32 := do
   | ["keepalive"] => Driver.KeepAliveDrv.main; return 0
   | ["countdown"] => Driver.CountdownDrv.main; return 0
   | ["debounce"] => Driver.DebounceDrv.main; return 0
+  | ["cfgstore"] => Driver.CfgStoreDrv.main; return 0
   | _ => IO.eprintln "usage: svdrv <subsystem>"; return 2
